@@ -187,17 +187,25 @@ def gen_enum(rng, idx):
     variants = ['A', f'B({T})', f'C {{ x: {T}, y: Option<String> }}', 'D(i64, bool)', 'E { }', 'F()']
     rng.shuffle(variants); variants = variants[:rng.randint(1, 5)]
     if tp and not any('T' in v[1:] for v in variants): variants.append('B(T)' if not any(v.startswith('B') for v in variants) else 'G(T)')      # a declared parameter must be used (rustc E0392)
-    gen = '<T>' if tp else ''
+    # stratified: a lifetime (reference inside a generic argument, Cow), a const parameter (array length)
+    elt = idx % 3 == 1; ecn = idx % 4 == 2
+    if elt: variants += [rng.choice(["H(Option<&'a u8>)", "H(std::borrow::Cow<'a, str>, i64)", "H(Vec<&'a u8>)"])] + (["I { r: Option<&'a String>, n: i64 }"] if rng.random() < 0.5 else [])
+    if ecn: variants += [rng.choice(["J([u8; N])", "J([[i64; N]; 2])"])]
+    rng.shuffle(variants)
+    gen = '<' + ', '.join((["'a"] if elt else []) + (['T'] if tp else []) + (['const N: usize'] if ecn else [])) + '>' if (tp or elt or ecn) else ''
     arms = []
     for k, v in enumerate(variants):
         vn = v[0]
-        if '(' in v and v.endswith('()'): e = f"{name}::{vn}()"
+        if v.startswith(('H(', 'J(')): e = f"{name}::{vn}(" + ('Mk::mk(s), Mk::mk(s + 1)' if "str>, i64" in v else 'Mk::mk(s)') + ")"
+        elif '(' in v and v.endswith('()'): e = f"{name}::{vn}()"
         elif '(' in v: e = f"{name}::{vn}(" + ', '.join('Mk::mk(s + %d)' % j for j in range(v.count(',') + 1)) + ")"
         elif '{' in v and 'x:' in v: e = f"{name}::{vn} {{ x: Mk::mk(s), y: Mk::mk(s + 1) }}"
+        elif '{' in v and 'r:' in v: e = f"{name}::{vn} {{ r: Mk::mk(s), n: Mk::mk(s + 1) }}"
         elif '{' in v: e = f"{name}::{vn} {{ }}"
         else: e = f"{name}::{vn}"
         arms.append(f"            {k} => {e},")
-    inst = f"{name}<i64>" if tp else name
+    inst_args = (["'static"] if elt else []) + (['i64'] if tp else []) + (['3'] if ecn else [])
+    inst = f"{name}<{', '.join(inst_args)}>" if inst_args else name
     eattr = rng.choice(['', '', '#[difference(expose)]\n', f'#[difference(expose = "{name}Diff")]\n'])
     # the comma after the LAST variant is optional (and absent in one-line enums such as `enum E { A, B }`)
     last_comma = rng.random() < 0.5
@@ -205,13 +213,13 @@ def gen_enum(rng, idx):
     enum_body = ',\n'.join(vlines) + (',\n' if last_comma else '\n')
     euse = ''
     src = (rng.choice(DOCS) + "#[derive(Debug, Clone, PartialEq, Difference)]\n#[cfg_attr(feature = \"sd\", derive(serde::Serialize, serde::Deserialize))]\n" + eattr + f"pub enum {name}{gen} {{\n" + enum_body + "}\n"
-           + euse + f"impl{'<T: Mk>' if tp else ''} Mk for {name}{gen} {{\n    fn mk(s: u64) -> Self {{\n        match s % {len(variants)} {{\n" + '\n'.join(arms[:-1]) + ('\n' if len(arms) > 1 else '')
+           + euse + "impl" + (gen.replace('T', 'T: Mk') if tp else gen) + f" Mk for {name}" + (gen.replace('const N: usize', 'N') if gen else '') + f" {{\n    fn mk(s: u64) -> Self {{\n        match s % {len(variants)} {{\n" + '\n'.join(arms[:-1]) + ('\n' if len(arms) > 1 else '')
            + arms[-1].replace(f"            {len(arms) - 1} =>", "            _ =>") + "\n        }\n    }\n}\n"
            + f"pub fn test() -> Result<(), String> {{\n    for seed in 0..12u64 {{\n        let a: {inst} = Mk::mk(seed);\n        let b: {inst} = Mk::mk(seed / 2 + 1);\n        let d = a.diff(&b);\n"
            + "        if (a == b) != d.is_empty() { return Err(format!(\"enum diff empty={} but equal={}\", d.is_empty(), a == b)); }\n        if d.len() > 1 { return Err(format!(\"enum diff has {} entries\", d.len())); }\n"
            + "        let r = a.clone().apply(d);\n        if r != b { return Err(format!(\"enum round trip: {:?} != {:?}\", r, b)); }\n"
            + "        let dr: Vec<_> = a.diff_ref(&b).into_iter().map(Into::into).collect();\n        if a.clone().apply(dr) != b { return Err(format!(\"enum diff_ref round trip\")); }\n    }\n    Ok(())\n}\n")
-    return name, src, ['enum'] + (['enum_generic'] if tp else [])
+    return name, src, ['enum'] + (['enum_generic'] if tp else []) + (['lifetime', 'enum_lifetime'] if elt else []) + (['const_generic', 'enum_const_generic'] if ecn else [])
 
 SUPPORT = r'''
 //! support code of the declaration harness (C17): values for arbitrary field types
